@@ -694,6 +694,33 @@ def gen_object(rng, tg, stats, idx):
     return Obj("o%d" % idx, ty, ini, storage, g)
 
 
+def gen_bf_object(rng, tg, stats, idx):
+    """struct of small scalars and bit-fields of mixed base types packed into shared storage units (`char c; int a:4;`,
+    `unsigned char lo:4; unsigned mid:10;`, unnamed gaps): the shapes in which a bit-field's unit overlaps its
+    neighbours, for the automatic-object stream (funcinit's zeroing and read-modify-write stores)"""
+    g = Gen(rng, tg, stats)
+    g.budget = 40
+    g.nocl = True
+    decls = []
+    for k in range(rng.randint(2, 7)):
+        r = rng.random()
+        if r < 0.35:
+            decls.append(Mem("b%d" % k, Sc(rng.choice(["char", "uchar", "schar", "short", "ushort", "bool"]))))
+        elif r < 0.42 and decls:
+            base = Sc(rng.choice(["int", "uint", "uchar", "ushort"]))
+            decls.append(Mem(None, base, rng.randint(1, min(12, base.size * 8))))
+        else:
+            base = Sc(rng.choice(["int", "uint", "uchar", "schar", "ushort", "short", "long", "ulong", "int", "uint"]))
+            w = rng.choice([1, 2, 3, 4, 5, 7, 9, 10, 12, rng.randint(1, base.size * 8)])
+            decls.append(Mem("b%d" % k, base, max(1, min(w, base.size * 8))))
+    if not any(m.name for m in decls):
+        decls.append(Mem("bz", Sc("int")))
+    ty = Agg(False, decls)
+    ini = g.gen_braced(ty, 0, True)
+    g.hist("shape", "bitfield-dense")
+    return Obj("o%d" % idx, ty, ini, "", g)
+
+
 def type_shape(t, d=0):
     if isinstance(t, Sc):
         return t.kind
@@ -1234,8 +1261,11 @@ class Runner:
             nested = False
             if parse.startswith("ok") and len(ps) >= 3:
                 ents = [e.split(",") for e in ps[2].split()]
+                # the recorded finding: an element patched INSIDE an earlier string/aggregate initialiser (not bit-fields
+                # that merely share a storage unit with their neighbours)
                 for a, b in zip(ents, ents[1:]):
-                    if int(b[0]) < int(a[1]):
+                    if (int(a[0]) <= int(b[0]) and int(b[1]) <= int(a[1]) and int(b[1]) - int(b[0]) < int(a[1]) - int(a[0])
+                            and int(a[2]) == 0 and int(a[3]) == 0):
                         nested = True
             if nswitch:
                 ck.report(rep, fid=FID_UNION)
@@ -1459,6 +1489,14 @@ def run(ck):
         if i == 2 * batch:
             ck.sample({"K-B object": objs[3].c_text()[:900], "target": targ, "model syntax": ini_m(objs[3].ini)[:300]})
         i += batch
+    # automatic (and static) objects whose bit-field storage units are shared with their neighbours
+    for j in range(60 if ck.quick else 1500):
+        if len(ck.violations) >= 5:
+            break
+        targ = TARGETS[j % 3]
+        o = gen_bf_object(ck.rng, TARGINFO[targ], R.stats, nobj + j)
+        R.check_batch([o], targ, use_gcc=(targ == "x86_64-sysv"))
+        R.check_auto(o, targ)
     ck.cov["kb_counts"] = R.counts
     ck.cov["histogram"] = {k: dict(sorted(v.items(), key=lambda kv: -kv[1])[:40]) for k, v in R.stats.items()}
     ck.cov["malformed_diagnostics"] = mal
